@@ -1141,11 +1141,16 @@ def c14(tr, cx):
         # harness-side recount (not the engine counters): completed = exit events with completed flag, etc.
         comp = 0; fini = 0; arrived = 0; accepted = 0; counts = []
         rejected = set(); baulked = set()
+        flag_comp = 0
         for E, inner in groups_of(tr):
+            released_out = set(e[3] for e in inner if e[0] == 'release' and e[4] == -1 and not e[5])
             for e in inner:
                 if e[0] == 'exit':
                     fini += 1
-                    if e[3]: comp += 1
+                    if e[3]: flag_comp += 1
+                    # completed = left through a service completion (not renege / baulk / rejection / reroute), judged from
+                    # the transfer log, not from the flag the engine passes to the exit node
+                    if e[2] in released_out: comp += 1
                 elif e[0] == 'arrive_try': arrived += 1
             # accepted = created customers that were neither rejected nor baulked: entered a node from the arrival node
             if E[3] == 'arrival':
@@ -1159,6 +1164,14 @@ def c14(tr, cx):
             if counts[-1] < n: tr.v('C14', 'stopped_before_count_reached', (run['cmethod'], n, counts[-3:]))
             if len(counts) > 1 and counts[-2] >= n: tr.v('C14', 'ran_past_count', (run['cmethod'], n, counts[-3:]))
             if last[key] != counts[-1]: tr.v('C14', 'engine_counter_differs_from_recount', (run['cmethod'], last[key], counts[-1]))
+    if cx['final'] is not None and cx['status'] == 'ok':
+        # the exit node's counters agree with the transfer log whatever the run method
+        comp2 = 0
+        for E, inner in groups_of(tr):
+            out_ = set(e[3] for e in inner if e[0] == 'release' and e[4] == -1 and not e[5])
+            comp2 += sum(1 for e in inner if e[0] == 'exit' and e[2] in out_)
+        tr.count('C14.completed_counter_checks')
+        if last['exit_completed'] != comp2: tr.v('C14', 'completed_counter_differs_from_transfer_log', (last['exit_completed'], comp2))
     # unfinished customers are left in place: the configuration at return is the one after the last event
     a = {nid: [(i['id'], i['server'], i['ssd'], i['sed'], i['blocked'], i['arr']) for i in nd['inds']] for nid, nd in fin['snap']['nodes'].items()}
     b = {nid: [(i['id'], i['server'], i['ssd'], i['sed'], i['blocked'], i['arr']) for i in nd['inds']] for nid, nd in last['nodes'].items()}
